@@ -9,6 +9,7 @@ use crate::types::tok_reset;
 use proptest::prelude::*;
 use proptest::strategy::BoxedStrategy;
 use serde_json::{json, Value};
+use std::collections::BTreeMap;
 use std::sync::OnceLock;
 
 pub trait SimDyn {
@@ -353,6 +354,20 @@ impl Engine for ArenaEngine {
     fn rule(&self) -> String {
         rule_text(self.prop)
     }
+    fn sweep(&self, tier: Tier, idx: u32, nworkers: u32) -> Option<SweepOut> {
+        if self.prop != "C01" && self.prop != "C04" {
+            return None;
+        }
+        Some(placement_sweep(self.prop, tier, idx, nworkers))
+    }
+    fn replay_sweep(&self, item: &Value) -> Vec<String> {
+        if let Some(n) = item["ctor_n"].as_u64() {
+            return ctor_table().into_iter().filter(|(k, _, _)| *k as u64 == n).filter_map(|(_, _, m)| m).collect();
+        }
+        let bytes = unhex(item["bytes_hex"].as_str().unwrap_or(""));
+        println!("{}", serde_json::to_string_pretty(&describe_case(&bytes, false)).unwrap());
+        run_arena_case(&bytes, false, false).viol.into_iter().filter(|v| v.prop == self.prop).map(|v| format!("op {}: {}", v.op, v.msg)).collect()
+    }
     fn assumptions(&self) -> Vec<String> {
         vec![
             "the harness process's global allocator (the ledger) sees every request bumpalo makes; requests are attributed to an arena by a thread-local mode flag set around every call into bumpalo".into(),
@@ -360,4 +375,137 @@ impl Engine for ArenaEngine {
             "release-like profile (opt-level 1, debug assertions off, overflow checks off)".into(),
         ]
     }
+}
+
+
+// ---------------------------------------------------------------------------------------------
+// systematic placement sweep (C01, C04): every bump-pointer residue x size x alignment x MIN_ALIGN
+
+fn size_byte_for(size: usize) -> Option<u8> {
+    if size < 128 {
+        return Some(size as u8);
+    }
+    (192u8..224).find(|b| map_size(*b, 0) == size)
+}
+
+pub fn sweep_case(m_idx: u8, cap: usize, placement: u8, pad: usize, size: usize, align_log: u8) -> Option<Vec<u8>> {
+    let capb = size_byte_for(cap)?;
+    let padb = size_byte_for(pad)?;
+    let szb = size_byte_for(size)?;
+    let ctor = if cap == 0 { 0 } else { 1 };
+    let mut v = vec![m_idx, ctor, capb, 0, placement, 0, 0, 0];
+    // pad with alloc_layout(pad, 1); then the request twice (second one fallible), then a zero-sized one
+    v.extend_from_slice(&[0, 0, padb, 0]);
+    v.extend_from_slice(&[0, align_log << 1, szb, 0]);
+    v.extend_from_slice(&[0, (align_log << 1) | 1, szb, 0]);
+    v.extend_from_slice(&[0, align_log << 1, 0, 0]);
+    Some(v)
+}
+
+/// constructor table: (N, description, violation)
+pub fn ctor_table() -> Vec<(usize, String, Option<String>)> {
+    use bumpalo::Bump;
+    let mut out = vec![];
+    macro_rules! probe {
+        ($n:expr, $valid:expr) => {{
+            let forms: [(&str, Box<dyn Fn() + std::panic::UnwindSafe>); 5] = [
+                ("with_min_align()", Box::new(|| drop(Bump::<{ $n }>::with_min_align()))),
+                ("default()", Box::new(|| drop(<Bump<{ $n }> as Default>::default()))),
+                ("with_min_align_and_capacity(0)", Box::new(|| drop(Bump::<{ $n }>::with_min_align_and_capacity(0)))),
+                ("with_min_align_and_capacity(100)", Box::new(|| drop(Bump::<{ $n }>::with_min_align_and_capacity(100)))),
+                ("try_with_min_align_and_capacity(1)", Box::new(|| drop(Bump::<{ $n }>::try_with_min_align_and_capacity(1)))),
+            ];
+            for (name, f) in forms {
+                let panicked = std::panic::catch_unwind(f).is_err();
+                let viol = if $valid && panicked {
+                    Some(format!("Bump::<{}>::{name} panicked although {} is a supported minimum alignment", $n, $n))
+                } else if !$valid && !panicked {
+                    Some(format!("Bump::<{}>::{name} did not panic although {} is not a supported minimum alignment", $n as usize, $n as usize))
+                } else {
+                    None
+                };
+                out.push(($n as usize, format!("Bump::<{}>::{name}: {}", $n as usize, if panicked { "panics" } else { "constructs" }), viol));
+            }
+        }};
+    }
+    probe!(1, true);
+    probe!(2, true);
+    probe!(4, true);
+    probe!(8, true);
+    probe!(16, true);
+    probe!(0, false);
+    probe!(3, false);
+    probe!(5, false);
+    probe!(6, false);
+    probe!(7, false);
+    probe!(9, false);
+    probe!(12, false);
+    probe!(17, false);
+    probe!(24, false);
+    probe!(32, false);
+    probe!(64, false);
+    probe!(128, false);
+    probe!(4096, false);
+    probe!(usize::MAX, false);
+    out
+}
+
+pub fn placement_sweep(prop: &'static str, tier: Tier, idx: u32, nworkers: u32) -> SweepOut {
+    install_quiet_panic_hook();
+    let mut out = SweepOut { exhaustive: true, ..Default::default() };
+    let pads: Vec<usize> = if tier == Tier::Thorough { (0..=64).collect() } else { vec![0, 1, 2, 3, 4, 5, 7, 8, 9, 15, 16, 17, 24, 31, 32, 33, 48, 63, 64] };
+    let sizes: Vec<usize> = if tier == Tier::Thorough { (0..=40).chain([63, 64, 65, 447, 448, 449, 4095, 4096, 4097]).collect() } else { vec![0, 1, 2, 3, 4, 7, 8, 9, 15, 16, 17, 24, 31, 32, 33, 40, 63, 64, 65, 447, 448, 449, 4096] };
+    let caps: [usize; 5] = [0, 1, 100, 448, 449];
+    let mut k = 0u32;
+    let mut nt = 0u64;
+    for m_idx in 0..5u8 {
+        for &cap in caps.iter() {
+            for placement in 0..3u8 {
+                for &pad in pads.iter() {
+                    k += 1;
+                    if k % nworkers != idx {
+                        continue;
+                    }
+                    for align_log in 0..=12u8 {
+                        for &size in sizes.iter() {
+                            let Some(bytes) = sweep_case(m_idx, cap, placement, pad, size, align_log) else {
+                                continue;
+                            };
+                            let r = run_arena_case(&bytes, false, false);
+                            out.evaluations += 1;
+                            let m = [1usize, 2, 4, 8, 16][m_idx as usize];
+                            if (1usize << align_log) != m && pad % 64 != 0 {
+                                nt += 1;
+                            }
+                            for v in r.viol.iter().filter(|v| v.prop == prop) {
+                                if out.viol.len() < 3 {
+                                    out.viol.push((format!("op {}: {}", v.op, v.msg), json!({"bytes_hex": hex(&bytes)})));
+                                }
+                            }
+                        }
+                    }
+                }
+            }
+        }
+    }
+    out.nontrivial = nt;
+    if prop == "C04" && idx == 0 {
+        let table = ctor_table();
+        let mut extra = BTreeMap::new();
+        for (n, desc, viol) in table.iter() {
+            out.evaluations += 1;
+            out.nontrivial += 1;
+            if let Some(m) = viol {
+                out.viol.push((m.clone(), json!({"ctor_n": n})));
+            }
+            let _ = desc;
+        }
+        extra.insert("constructor_table_entries".to_string(), json!(table.len()));
+        extra.insert("constructor_table_sample".to_string(), json!(table.iter().filter(|t| t.0 == 3 || t.0 == 16).map(|t| t.1.clone()).collect::<Vec<_>>()));
+        out.extra = extra;
+    }
+    if idx == 0 {
+        out.samples.push(json!({"sweep_item": "fresh Bump<M>(capacity), alloc_layout(pad,1), alloc_layout(size,align), try_alloc_layout(size,align), alloc_layout(0,align)", "example": describe_case(&sweep_case(3, 100, 1, 17, 24, 5).unwrap(), false)}));
+    }
+    out
 }
